@@ -281,6 +281,16 @@ def _sig_closing_tag_leaves_container(case: dict, f: Failure) -> bool:
     return any(t in once for t in inside)
 
 
+def _sig_pipe_line_under_table(case: dict, f: Failure) -> bool:
+    """Same root cause as C01's finding of this name: a line holding only "|" directly under a table starts a paragraph
+    there; the first run joins its words to "| x", which the second run reads as a table row."""
+    import re
+
+    if case.get("kind", "md") != "md" or case["opts"].get("plaintext") or not f.bucket.startswith("not-idempotent"):
+        return False
+    return re.search(r"\|[^\n]*\n[ \t>]*\|[ \t]*\n", case["text"] + "\n") is not None
+
+
 def _sig_tight_list_flips(case: dict, f: Failure) -> bool:
     """list_spacing=preserve: the second run only ADDS blank lines, each directly before a list item marker, and the
     third run changes nothing (a tight list whose item holds several blocks -- e.g. a heading followed by text, or a
@@ -383,6 +393,7 @@ def OPTION_VARIANTS(case: dict) -> list[dict]:
 DECOMPOSE_KEY = "text"  # several recorded findings in one document: see core.sig_hit
 
 SIGS = {
+    "pipe_line_under_table": _sig_pipe_line_under_table,
     "closing_tag_leaves_container": _sig_closing_tag_leaves_container,
     "code_span_edge_spaces": _sig_code_span_edge_spaces,
     "tag_block_heuristics_second_run": _sig_tag_block_heuristics,
